@@ -4,7 +4,7 @@
    Path.branch, Path.extend_path, KeccakRegistry.copy, State.__deepcopy__) is regenerated
    from /repo/src/halmos/sevm.py on every run. *)
 From Coq Require Import String ZArith List Bool Lia.
-From HV Require Import Gen.GenCopies Spec.IsolationSpec Model.IsolationModel Proofs.IsolationProofs.
+From HV Require Import Gen.GenCopies Gen.GenFrontierFlow Spec.IsolationSpec Model.IsolationModel Proofs.IsolationProofs.
 Import ListNotations.
 Open Scope Z_scope.
 
@@ -48,6 +48,79 @@ Theorem C20_order_refuted :
     verdict_of (spec_paths sys (t_body t2) s0 (t_depth t2)) = 1.
 Proof. exact f10_refuted. Qed.
 Print Assumptions C20_order_refuted.
+
+(* ---------------------------------------------------------------- per-test configuration *)
+
+(* Every test runs under its own configuration (the contract's, overridden by the test's
+   `@custom:halmos` annotation): its body and its --invariant-depth are its own.  The frontier
+   cache is shared and keyed by the depth alone, so the configuration that explores the target
+   transactions (cstep e: what one transaction reaches under loop bound / array lengths / ... e)
+   must not be the running test's.  frontier_cfg is what the code does
+   (Gen/GenFrontierFlow.v: provenance of the `args` reaching run_target_function through
+   run_message -> get_frontier -> _compute_frontier -> run_target_contract, regenerated from
+   __main__.py on every run).  For all configuration-indexed transition systems, all contract
+   configurations and all prefixes of tests with arbitrary configurations: a completed test yields
+   what it yields when it is the only test of the run. *)
+Theorem C20_order_config :
+  forall (cstep : Z -> Z -> list Z) (sd : Z -> Z) (cc s0 : Z) (pre : list ctest) (t : ctest),
+    Forall (fun u => t_budget (ct_test u) = None \/ t_depth (ct_test u) = O) pre ->
+    t_budget (ct_test t) = None ->
+    nth (length pre) (run_contract_c frontier_cfg cstep sd cc s0 (pre ++ [t])) []
+    = hd [] (run_contract_c frontier_cfg cstep sd cc s0 [t]).
+Proof. exact order_config. Qed.
+Print Assumptions C20_order_config.
+
+(* ... and that is the specification's result over the transactions explored under the CONTRACT's
+   configuration: the annotation of a test governs its own body and depth only *)
+Theorem C20_alone_config :
+  forall (cstep : Z -> Z -> list Z) (sd : Z -> Z) (cc s0 : Z) (t : ctest),
+    t_budget (ct_test t) = None ->
+    hd [] (run_contract_c frontier_cfg cstep sd cc s0 [t])
+    = spec_paths (mkSystem (cstep cc) sd) (t_body (ct_test t)) s0 (t_depth (ct_test t)).
+Proof. exact alone_config. Qed.
+Print Assumptions C20_alone_config.
+
+(* the general form: ANY rule fc for the exploring configuration that ignores the running test
+   gives schedule independence *)
+Theorem C20_order_config_general :
+  forall (fc : Z -> Z -> Z) (cstep : Z -> Z -> list Z) (sd : Z -> Z) (cc : Z),
+    (forall a b, fc cc a = fc cc b) ->
+    forall (s0 : Z) (pre : list ctest) (t : ctest),
+      Forall (fun u => t_budget (ct_test u) = None \/ t_depth (ct_test u) = O) pre ->
+      t_budget (ct_test t) = None ->
+      nth (length pre) (run_contract_c fc cstep sd cc s0 (pre ++ [t])) []
+      = hd [] (run_contract_c fc cstep sd cc s0 [t]).
+Proof. exact schedule_independent_c. Qed.
+Print Assumptions C20_order_config_general.
+
+(* the condition is necessary: with the running test's configuration exploring the shared
+   frontier (pick_cfg SrcTest), a completed un-annotated test FAILs (1) after an annotated one and
+   PASSes (0) alone *)
+Theorem C20_test_config_in_shared_frontier_refuted :
+  exists (cstep : Z -> Z -> list Z) (sd : Z -> Z) (cc s0 : Z) (t1 t2 : ctest),
+    t_budget (ct_test t1) = None /\ t_budget (ct_test t2) = None /\
+    verdict_of (nth 1 (run_contract_c (pick_cfg SrcTest) cstep sd cc s0 [t1; t2]) []) = 1 /\
+    verdict_of (hd [] (run_contract_c (pick_cfg SrcTest) cstep sd cc s0 [t2])) = 0.
+Proof. exact test_cfg_in_shared_frontier_refutes_isolation. Qed.
+Print Assumptions C20_test_config_in_shared_frontier_refuted.
+
+(* nothing derived from the running test's FunctionContext reaches get_frontier /
+   _compute_frontier / run_target_contract / run_target_function, and the cache is read and
+   written under the depth alone (regenerated data-flow facts) *)
+Theorem C20_frontier_inputs_contract_level :
+  explore_cfg_src = SrcContract /\ frontier_test_inputs = [] /\ cache_key_depth_only = true.
+Proof. exact frontier_flow_facts. Qed.
+Print Assumptions C20_frontier_inputs_contract_level.
+
+Example C20_nonvacuous_config :
+  let cstep := fun e s => map (fun k => s + Z.of_nat k) (seq 1 (Z.to_nat e)) in
+  let body := fun s => [if s <? 3 then 0 else 1] in
+  let t1 := mkCTest 3 (mkTest 1 body None) in
+  let t2 := mkCTest 2 (mkTest 2 body None) in
+  run_contract_c frontier_cfg cstep (fun s => s) 2 0 [t1; t2] = [[0; 0; 0]; [0; 0; 0; 1; 1]] /\
+  run_contract_c frontier_cfg cstep (fun s => s) 2 0 [t2] = [[0; 0; 0; 1; 1]] /\
+  run_contract_c (pick_cfg SrcTest) cstep (fun s => s) 2 0 [t1; t2] = [[0; 0; 0; 1]; [0; 0; 0; 1; 1; 1]].
+Proof. repeat split; vm_compute; reflexivity. Qed.
 
 (* ---------------------------------------------------------------- fresh-symbol names *)
 
